@@ -297,7 +297,7 @@ theorem writeAlias_nb (U : UnicodeOps) {cfg : Cfg} (H : CfgOk cfg) (a : RustType
   nb_pieces
   · exact comments_nb 0 _ ha.docs
   · nb_lit
-  · exact KeyStr.nb ha.original
+  · exact KeyStr.nb ha.renamed
   · nb_lit
   · exact formatType_nb H a.ty st ty _ ha.ty hty
   · nb_lit
